@@ -15,6 +15,7 @@ from pathlib import Path
 
 import core
 import projmodel
+import roottable
 import schedshim
 from props import c04, c06, c13
 
@@ -320,8 +321,11 @@ def run(ctx: core.Ctx) -> int:
             e = r["event"]
             r["event"] = {"label": e["label"], "crash": e["crash"], "settings": [x["cfg"] for x in e["runs"]],
                           "exits": [x["exit"] for x in e["runs"]]}
+    # RootTable.tla: which directory is the project (--root / top of the Git work tree / working directory), every cell replayed
+    rt = roottable.stage(ctx, ("C14.", "crash"))
+    mc_viol = list(mc_viol) + rt["mc_violations"]
     return ctx.finish(
-        evaluations=n_runs,
+        evaluations=n_runs + len(rt["events"]),
         distinct_nontrivial=len({e["label"] for e in events}) * 2,
         rule="trees: seeded Lint.tla states (REUSE.toml), TLC-sampled Precedence chains and Inventory projects (dep5), a "
              "third with stacked comment terminators; checkouts below and in directories with names that mean something "
